@@ -176,21 +176,34 @@ class Paint:
             return np.zeros(len(pts))
         base = s.tvals(pts)
         tot = np.zeros(len(pts))
+
+        def both(f):
+            # the unrounded value lies up to half a quantum on either side of the stored one, and t is not symmetric in it
+            return np.maximum(np.nan_to_num(np.abs(f(+1) - base), nan=0.0), np.nan_to_num(np.abs(f(-1) - base), nan=0.0))
+
         for name, q in s.quanta.items():
             if name == "G":  # decimal gradientTransform entries: M = Mpre @ G
                 for (i, j) in ((0, 0), (1, 0), (0, 1), (1, 1), (0, 2), (1, 2)):
-                    G = s.G.copy()
-                    G[i, j] += q / 2
-                    tot += np.nan_to_num(np.abs(s.tvals(pts, M=s.Mpre @ G) - base), nan=0.0)
+
+                    def f(sign, i=i, j=j):
+                        G = s.G.copy()
+                        G[i, j] += sign * q / 2
+                        return s.tvals(pts, M=s.Mpre @ G)
+
+                    tot += both(f)
                 continue
             v = getattr(s, name)
             if isinstance(v, tuple):
                 for i in range(len(v)):
-                    vv = list(v)
-                    vv[i] += q / 2
-                    tot += np.nan_to_num(np.abs(s.tvals(pts, **{name: tuple(vv)}) - base), nan=0.0)
+
+                    def f(sign, i=i):
+                        vv = list(v)
+                        vv[i] += sign * q / 2
+                        return s.tvals(pts, **{name: tuple(vv)})
+
+                    tot += both(f)
             else:
-                tot += np.nan_to_num(np.abs(s.tvals(pts, **{name: v + q / 2}) - base), nan=0.0)
+                tot += both(lambda sign: s.tvals(pts, **{name: v + sign * q / 2}))
         return tot
 
     def describe(s):
